@@ -31,7 +31,12 @@ def correct_wants(groups, ref, j, since):
     return c
 
 
-def corrupt(want, how):
+def corrupt(want, how, stale=''):
+    if how == 'stale':
+        # output already consumed by the PREVIOUS want is no longer eligible
+        if not stale.strip():
+            return None
+        return stale.rstrip('\n') + '\n' + want
     if how == 'replaced':
         return 'zzz9'
     if how == 'appended':
@@ -46,7 +51,7 @@ def corrupt(want, how):
     raise KeyError(how)
 
 
-CORRUPTIONS = ['replaced', 'appended', 'prepended', 'dropped']
+CORRUPTIONS = ['replaced', 'appended', 'prepended', 'dropped', 'stale']
 
 
 def build_c02(kinds, styles, want_choice, corruption, rng=None, sep_prob=0.0):
@@ -56,6 +61,8 @@ def build_c02(kinds, styles, want_choice, corruption, rng=None, sep_prob=0.0):
     ref = gd.reference(groups)
     since = 0
     chosen = {}
+    stale = {}          # group index -> stdout consumed by the previous want
+    last_acc = ''
     for j, g in enumerate(groups):
         wc = want_choice[j]
         if wc is None:
@@ -66,6 +73,8 @@ def build_c02(kinds, styles, want_choice, corruption, rng=None, sep_prob=0.0):
         name, w = cands[wc % len(cands)]
         g.want = w
         chosen[j] = name
+        stale[j] = last_acc
+        last_acc = ''.join(ref[i]['out'] for i in range(since, j + 1) if ref[i].get('runs'))
         since = j + 1
     expect = {'pfs': '100', 'kind': None, 'T': [g.k for g, r in zip(groups, ref) if r['runs']]}
     if not any(r['runs'] for r in ref):
@@ -75,7 +84,7 @@ def build_c02(kinds, styles, want_choice, corruption, rng=None, sep_prob=0.0):
         j, how = corruption
         if groups[j].want is None:
             return None
-        cw = corrupt(groups[j].want, how)
+        cw = corrupt(groups[j].want, how, stale.get(j, ''))
         if cw is None:
             return None
         groups[j].want = cw
@@ -86,7 +95,7 @@ def build_c02(kinds, styles, want_choice, corruption, rng=None, sep_prob=0.0):
     return {'text': text, 'run': {}, 'expect': expect, 'desc': desc, 'groups': groups}
 
 
-C02_KINDS = ['assign', 'print', 'expr', 'both', 'multi', 'multiexpr', 'compound', 'print2']
+C02_KINDS = ['assign', 'print', 'expr', 'nlstr', 'both', 'multi', 'multiexpr', 'compound', 'print2']
 
 
 def c02_exhaustive(maxlen):
@@ -126,7 +135,7 @@ def c02_random(rng):
 
 # ------------------------------------------------------------------ C03
 EXC_KINDS = ['raise', 'printraise', 'callraise', 'emptyraise']
-WANT_FORMS = ['none', 'exact', 'stack', 'wrongmsg', 'wrongtype', 'nontb', 'ellipsis', 'dotted', 'oldheader']
+WANT_FORMS = ['none', 'exact', 'stack', 'wrongmsg', 'wrongtype', 'nontb', 'nontb_dots', 'nontb_hdronly', 'ellipsis', 'dotted', 'oldheader']
 
 
 def exc_want(form, tname, msg):
@@ -144,6 +153,10 @@ def exc_want(form, tname, msg):
         return hdr + '\n    ...\nOSError: %s' % (msg or 'x')
     if form == 'nontb':
         return last
+    if form == 'nontb_dots':
+        return '...'
+    if form == 'nontb_hdronly':
+        return hdr
     if form == 'ellipsis':
         return hdr + '\n    ...\n%s...' % tname[:3]
     if form == 'dotted':
@@ -179,7 +192,7 @@ def build_c03(pre_kinds, exc_kind, post_kinds, form, flags, on_error='return'):
     ell = flags.get('ELLIPSIS', True)
     ign = flags.get('IGNORE_EXCEPTION_DETAIL', False)
     # decision table of the property
-    if form == 'none' or form == 'nontb':
+    if form in ('none', 'nontb', 'nontb_dots', 'nontb_hdronly'):
         passes = False
         kind = 'exception'
     elif form in ('exact', 'stack', 'oldheader'):
